@@ -212,6 +212,12 @@ def run_case(case, ctx):
             j0 = (case['seed'] // 13) % d
             z = torchtt.TT([c * 0 if k_ == j0 else c for k_, c in enumerate(z.cores)])
         ctx.count('projected-tensor:zero')
+    if zk in (2, 7):
+        # a projected tensor of tiny (1e-15) or huge (1e12) overall size, the factor on its first core (what c*z gives): P is linear, so every clause holds relative to ||z||
+        # (only z is rescaled - the base point, whose scaling makes the reference projector ill-conditioned, is left alone)
+        fz = 1e-15 if zk == 2 else 1e12
+        z = ctx.call('TT*scalar', lambda t: t * fz, z)
+        ctx.count('projected-tensor:magnitude-%g' % fz)
     dz, dw = dn.D(z), dn.D(w)
     P = tt.manifold.riemannian_projection
 
